@@ -276,6 +276,11 @@ def positions(run, n_playout, n_constructed, n_ood):
     while n < n_ood:
         if add(out_of_domain_position(rng, rng.choice(base)), "out-of-domain"):
             n += 1
+    # Positions that crossed a process boundary (self-play transcripts arrive through a multiprocessing queue)
+    # hold Piece objects that are EQUAL to, but not identical with, the interned ones of Piece.cached:
+    # every third position is replaced by its pickle round trip, so code relying on object identity is exercised.
+    import pickle
+    out = [((pickle.loads(pickle.dumps(p)), kind + "+pickled") if i % 3 == 1 else (p, kind)) for i, (p, kind) in enumerate(out)]
     return out
 
 
